@@ -1,5 +1,6 @@
 import Hifi.Model.Proto
 import Hifi.Model.Epoch
+import Hifi.Model.WeekdayAt
 import Hifi.Model.Views
 import Hifi.Model.ViewsFloat
 import Hifi.Model.LeapFile
@@ -694,10 +695,9 @@ def handleMore (op : String) (args : List String) (impl : Impl) : Option Ans :=
   | "next_midnight", [e, w] | "next_noon", [e, w] | "prev_midnight", [e, w] | "prev_noon", [e, w] => do
     let e ← parseEp? e; let w ← w.toInt?
     let fwd := op == "next_midnight" || op == "next_noon"
-    let base : Ep := if fwd then e.nextOwn w else e.previousOwn w   -- = next / previous
     let h : Int := if op == "next_noon" || op == "prev_noon" then 12 else 0
-    let m : Res Ep := match withHmsStrictCal base.dur base.ts h with
-      | .ok d => Res.ok (⟨d, base.ts⟩ : Ep) | .err => .err | .panic => .panic
+    -- Model/WeekdayAt.lean: next(w) / previous(w), then with_hms_strict(h, 0, 0) (theorems C16.next_weekday_at_spec, previous_weekday_at_spec)
+    let m : Res Ep := if fwd then e.nextWeekdayAt w h else e.previousWeekdayAt w h
     let fits := inRange (sval e.dur + 9 * nsPerDay) && inRange (sval e.dur - 9 * nsPerDay) &&
                 inRange (sval e.dur + refOffsetNs e.ts.name + 9 * nsPerDay)
     -- spec, on the calendar of the epoch's OWN scale (civil count = elapsed time + the scale's reference date-time):
